@@ -17,9 +17,11 @@ head = f"""## Appendix: Seeded changes (independent sub-agents) and which checks
 
 Each change was produced by a fresh sub-agent that saw only the property text and a scratch worktree; it compiles,
 passes the 84 tests, and its demonstration fails with it and passes without it (`tools/seedverify.sh`, confirmed
-here in a scratch worktree). `tools/seedtest.sh` applies it to /repo, runs the check, and reverts. Four rounds, {n} changes
+here in a scratch worktree). `tools/seedtest.sh` applies it to /repo, runs the check, and reverts. Five rounds, {n} changes
 (variants a/b; c/d with different mechanisms; e/f aimed at cooperating sites, operation sequences on one tree object, the
-command layer and boundary inputs; g/h aimed at whatever the earlier six had not used). {missed} were missed by the first
+command layer and boundary inputs; g/h and i/j aimed at whatever the earlier ones had not used: later trees of a file,
+state left on an object by an earlier call, absent versus zero values, fast paths for special shapes, counts beyond one byte,
+half-done results reported as success, layouts and spellings other programs use). {missed} were missed by the first
 version of a check and led to a stronger workload (marked MISSED … After …); all of those are caught by the quick tier at
 VERIF_SEED=1 now. {len(other)} thread-count changes submitted under C10/C18 ({', '.join(other)}) are decided by C11. {len(nd)} ({', '.join(nd)}) are
 documented non-detections because the changed behaviour lies outside what the property states (an oracle for it would alarm
@@ -31,7 +33,13 @@ once and use a handle twice; include negative and absent lengths, labelled roots
 chained rename maps, misleading file extensions, non-monophyletic outgroups, completely unresolved trees, the root as "an
 inner node", results smaller than the domain (two tips), thread counts above the number of branches, several concurrent
 callers of plain functions, every spelling of an option (--name value, --name=value, -n value), every legal seed (0, negative),
-list files in every layout the command accepts (comma-separated, one very long line, no final newline).
+list files in every layout the command accepts (comma-separated, one very long line, no final newline, empty lines);
+documents in the layouts OTHER programs write (Nexus translate tables with commas and ';' after the last pair); values in
+documents replaced by hostile ones (-4, 2^63-1, null) while the document stays well-formed; names related to each other
+(same letters in another case, prefixes, _1/_10/_01); hundreds of small trees (255, 256, 257, 300, 1000) and nodes with more
+than 255 neighbours; several erroneous trees in one stream and errors arriving through the real reader; the same argument
+slices passed to a second call; objects re-rooted or resolved before the operation under test, with the model read off the
+object (the text of a re-rooted tree can hide a support behind a node name).
 
 | seed | change | result |
 |---|---|---|
